@@ -179,6 +179,14 @@ def check_case(case):
     cfg0, stored0 = gin.config_str(), stored_repr()
     mutated_before = False
     for ci, call in enumerate(case['calls']):
+      if call.get('rebind'):
+        # the binding of one parameter is replaced between two calls: the next call must deliver
+        # the new tree (nothing about the old one may be remembered)
+        param, tree = call['rebind']
+        gin.parse_config(f'cons.{param} = {render(tree)}')
+        bound[param] = tree
+        cfg0, stored0 = gin.config_str(), stored_repr()
+        labels.add('rebind-between-calls')
       args, kwargs, supplied = [], {}, {}
       for i, param in enumerate(PARAMS):
         how = call['how'][i]
@@ -284,7 +292,10 @@ def strategy(draw):
     how = [draw(st.sampled_from(['pos', 'pos', 'req_pos'])) for _ in range(n_pos)]
     how += [draw(st.sampled_from(['omit', 'omit', 'kw', 'kw', 'req_kw']))
             for _ in range(len(PARAMS) - n_pos)]
-    calls.append({'how': how,
+    rebind = None
+    if calls and draw(st.integers(0, 3)) == 0:
+      rebind = [draw(st.sampled_from(PARAMS)), draw(_tree(2))]
+    calls.append({'rebind': rebind, 'how': how,
                   'mutate': draw(st.booleans()) or draw(st.booleans())})
   return {
       'consumer_kind': draw(st.sampled_from(['function', 'function', 'class_init'])),
